@@ -796,6 +796,7 @@ def oracle_normals(ctx, gen):
             d = normal.ConditionalDiagonalNormal(shape, context_encoder=enc)
             R = 3
             c = draw(gen, [R, cf], 'normal') * 0.8
+            c[2] = c[2] * 7.0 + torch.sign(c[2]) * 3.0      # one context row whose log-standard-deviations are far out (|log sigma| ~ 4 .. 10)
             for i in range(R):
                 ci = c[i:i + 1]
                 # true parameters of row i by the documented convention: first half of the last dim = means
